@@ -18,8 +18,11 @@ for d in sorted(glob.glob("/verif/seeded/r3/C*_*")):
     rcs = dict(x.split("=") for x in r["checks"].split())
     pid = name.split("_")[0]
     ok = int(rcs.get(pid, -1)) == want
+    other = None
+    if os.path.exists(os.path.join(d, "meta.json")):
+        other = json.load(open(os.path.join(d, "meta.json"))).get("property")
     rows.append((name, r["demo_rc_with_change"], r["demo_rc_without_change"], r["baseline_pass_missing"], r["checks"].strip(),
-                 "as expected" if ok else "NOT as expected", (n.get("needs") or n.get("why_property_preserved") or "")[:160].replace("\n", " ").replace("|", "/")))
+                 "as expected" if ok else (f"reported by the {other} command (meta.json)" if other else "NOT as expected"), (n.get("needs") or n.get("why_property_preserved") or "")[:160].replace("\n", " ").replace("|", "/")))
 with open("/verif/seeded/r3/SUMMARY.md", "w") as f:
     f.write("# Round 3 of the seeded campaign - final re-run with the corrected checks (tools/r3_eval.sh, run against the scratch worktrees)\n\n")
     f.write("| change | demo rc with / without | baseline pass missing | quick check rc | verdict | needs / why preserved |\n|---|---|---|---|---|---|\n")
@@ -27,4 +30,4 @@ with open("/verif/seeded/r3/SUMMARY.md", "w") as f:
         f.write(f"| `{x[0]}` | {x[1]} / {x[2]} | {x[3]} | {x[4]} | {x[5]} | {x[6]} |\n")
     f.write("\n`C03_break_1` (rollback no longer restores fs) is a sequence decimate - rollback - run: reported by the C14 command "
             "(meta.json names C14 as the detecting check), not by C03.\n")
-print(len(rows), "rows;", sum(1 for x in rows if x[5] != "as expected"), "not as expected")
+print(len(rows), "rows;", sum(1 for x in rows if x[5] == "NOT as expected"), "not as expected")
